@@ -310,6 +310,17 @@ func run(rc *kernel.RunCtx) {
 		}
 		rc.Stats.Probe("replaceattr-that-logs")
 	}
+	// How deep the hook may log from inside its own logging: normally once;
+	// some runs let the record written by the hook be redacted in turn, down
+	// to a drawn depth, so that many Handle calls of one handler family are
+	// in progress at the same time without many tasks (anything the handler
+	// holds per call in progress - pooled buffers, slots - is held maxNest+1
+	// times over then).
+	maxNest := 1
+	if reentrant && tp.Bool(1, 12) {
+		maxNest = tp.Range(2, 96)
+		rc.Stats.Probe("deeply-nested-handle")
+	}
 	// Records normally carry a unique "id" attribute; some runs do without,
 	// so that records with no attributes at all occur (lines are compared as
 	// a multiset, which does not need uniqueness).
@@ -386,6 +397,9 @@ func run(rc *kernel.RunCtx) {
 	nestedWant := make([]string, nTasks)
 	for ti := range nestedRecs {
 		nestedRecs[ti] = slog.NewRecord(time.Time{}, slog.LevelError, "redacted by T"+kernel.Itoa(ti), 0)
+		if maxNest > 1 {
+			nestedRecs[ti].AddAttrs(slog.Int("reenter", ti))
+		}
 		nestedWant[ti] = predict(nestedRecs[ti], nil)
 	}
 	// The context a record is handled with must not matter ("Canceling the
@@ -509,7 +523,7 @@ func run(rc *kernel.RunCtx) {
 	}
 
 	reenterFn = func(ti int) {
-		if ti < 0 || ti >= nTasks || nesting[ti] > 0 {
+		if ti < 0 || ti >= nTasks || nesting[ti] >= maxNest {
 			return
 		}
 		nesting[ti]++
